@@ -48,6 +48,9 @@ type c18Case struct {
 	// Layered > 0: the first Layered mappers belong to one parser, the others to a second parser built over the
 	// first one's lexer (Lexer(first.Lexer())): the inner mappers run first
 	Layered int `json:"layered,omitempty"`
+	// LexerLast: the Lexer option follows the mapper options (options name symbols; which lexer they belong to is
+	// only known once all options have been given)
+	LexerLast bool `json:"lexer_last,omitempty"`
 }
 
 // Option values are values: the same one may configure several parsers, over different lexers.
@@ -221,6 +224,9 @@ func checkC18(c *c18Case, r *vstat.Run) outcome {
 			}
 			p, err = participle.Build[c18Grammar](append(outer, opts[first:]...)...)
 			return
+		}
+		if c.LexerLast {
+			opts = append(append([]participle.Option{}, opts[1:]...), opts[0])
 		}
 		p, err = participle.Build[c18Grammar](opts...)
 	}); pm != "" || err != nil {
@@ -503,6 +509,7 @@ func TestC18(t *testing.T) {
 			c.Mappers = []c18Mapper{{Kind: "unquote", Types: []string{"String", "Char"}}, {Kind: "upper", Types: []string{"String", "Ident"}}}
 			c.Layered = 1
 		}
+		c.LexerLast = c.Layered == 0 && rapid.IntRange(0, 2).Draw(t, "lexerlast") == 0
 		for _, it := range c.Items {
 			c.ItemHex = append(c.ItemHex, fmt.Sprintf("%x", it))
 		}
